@@ -146,6 +146,11 @@ where
 
 /// run one closure on a fresh 8 MiB thread with the hang limit; `None` = hang
 pub fn run_limited<R: Send + 'static>(f: impl FnOnce() -> R + Send + 'static) -> Option<R> {
+    run_limited_for(Duration::from_secs(HANG_SECS), f)
+}
+
+/// same with an explicit limit (used to confirm a suspected hang on a quiet thread)
+pub fn run_limited_for<R: Send + 'static>(limit: Duration, f: impl FnOnce() -> R + Send + 'static) -> Option<R> {
     let (tx, rx) = mpsc::channel();
     std::thread::Builder::new()
         .stack_size(STACK_BYTES)
@@ -153,5 +158,5 @@ pub fn run_limited<R: Send + 'static>(f: impl FnOnce() -> R + Send + 'static) ->
             let _ = tx.send(f());
         })
         .expect("cannot spawn thread");
-    rx.recv_timeout(Duration::from_secs(HANG_SECS)).ok()
+    rx.recv_timeout(limit).ok()
 }
